@@ -203,3 +203,53 @@ func scenarioWedge() []caseOut {
 	}
 	return a.outs(tags)
 }
+
+// scenarioLaggards, n=4, height 0 (leaders: round 1 → op 1, round 2 → op 2, round 3 → op 3): operator 2 is Byzantine.
+// Operators 1 and 3 prepare and commit (1,V). Operator 4 receives the round-1 traffic only after its timer has fired (it is
+// in round 2, everything of round 1 is "past round"). The Byzantine operator aggregates the two real commits and its own
+// into a decided certificate for (1,V) and hands it to operator 4 only, then stays silent: operator 4 is decided (Round
+// lowered to 1, no accepted proposal), it does not time out any more. Operators 1 and 3 time out; round 2 has a silent leader;
+// from round 3 on they need operator 4's round-change. WITHOUT compaction their two round-changes are a partial quorum that
+// pulls the decided instance forward (it keeps processing messages) and everybody decides. WITH the runner's compaction the
+// decided instance's round-change container is emptied after every round-change, operator 4 is never pulled, and operators
+// 1 and 3 alone are no quorum in any later round.
+func scenarioLaggards(compact bool) []caseOut {
+	env := getEnv(4)
+	h := specqbft.Height(0)
+	a := newDirected(env, h, []spectypes.OperatorID{2}, compact)
+	V := valueBytes(1)
+	rV := sha256.Sum256(V)
+	a.startAll([][]byte{V, V, V, V})
+	n1, n3, n4 := a.node(1), a.node(3), a.node(4)
+	for _, nd := range []*SimNode{n1, n3} {
+		a.deliverWhere(nd, isT(specqbft.ProposalMsgType, 1))
+	}
+	a.sendDirect(enc(a.f.prepare(2, 1, rV)), []*SimNode{n1, n3})
+	for _, nd := range []*SimNode{n1, n3} {
+		a.deliverWhere(nd, isT(specqbft.PrepareMsgType, 1))
+	}
+	a.timeoutOn(n4) // operator 4's timer fires before anything reaches it
+	a.deliverWhere(n4, func(m *specqbft.SignedMessage) bool { return m.Message.Round == 1 })
+	a.timeoutOn(n1)
+	a.timeoutOn(n3)
+	base := &specqbft.Message{MsgType: specqbft.CommitMsgType, Height: h, Round: 1, Identifier: env.identifier, Root: rV}
+	cert := env.sign(2, base)
+	for _, w := range a.wire {
+		if w.Msg != nil && isT(specqbft.CommitMsgType, 1)(w.Msg) && w.Msg.Message.Root == rV && uint64(len(cert.Signers)) < env.q {
+			_ = cert.Aggregate(cloneMsg(w.Msg))
+		}
+	}
+	tags := []string{"case/directed", fmt.Sprintf("directed/laggards-after-private-certificate-compact-%v", compact)}
+	if uint64(len(cert.Signers)) < env.q {
+		return a.outs(append(tags, "directed/laggards-not-applicable"))
+	}
+	cert.FullData = V
+	a.sendDirect(enc(cert), []*SimNode{n4})
+	used, why := a.continuation()
+	if used < 0 && why != "cutoff" {
+		a.violate("C07/no-decision-within-f+3-rounds"+a.wedgeCause()+a.suffix(), "n=4, operator 2 Byzantine then silent: operator 4 decided through a certificate only it received; with the runner's compaction its round-change container is emptied after every round-change, it is never pulled by the partial quorum of operators 1 and 3, and these two alone cannot form a quorum in any later round")
+	} else {
+		tags = append(tags, fmt.Sprintf("c07/laggards-scenario-decided-after-%d-rounds", used))
+	}
+	return a.outs(tags)
+}
